@@ -8,6 +8,7 @@ CONSTANTS
   AllowExcl = FALSE
   AllowCat3 = FALSE
   AllowReuse = TRUE
+  Extras = FALSE
   AllowFindings = FALSE
 INVARIANT InvToldIsActual
 INVARIANT InvAddAligned
